@@ -114,6 +114,9 @@ def _quats(ctx, n):
         s = 1.0 if i % 3 == 0 else 10 ** ctx.rng.uniform(-3, 3)
         if i % 7 == 5:
             s = 10.0 ** float(ctx.rng.choice([-100, -30, -12, -9, -8, -5, 5, 9, 30, 100]))
+        if i % 7 == 2:
+            # nearly, but not exactly, unit: inside the tolerance of is_versor()/np.isclose, where a "tidy-up" renormalisation hides
+            s = 1.0 + float(ctx.rng.choice([-8e-6, -5e-6, -1e-6, -2e-7, 3e-8, 2e-7, 1e-6, 5e-6, 8e-6]))
         out.append(q * s)
     return out
 
@@ -147,7 +150,9 @@ def o_algebra(inp):
     sc_pq = np.linalg.norm(p) * np.linalg.norm(q)
     sc3 = sc_pq * np.linalg.norm(r)
     sc = sc_pq
-    prods = {k: I[k] for k in ('product', 'mul', 'matmul', 'q_prod')}
+    # array right operands and Quaternion-object right operands (either storage order): all must be the Hamilton product
+    prods = {k: I[k] for k in ('product', 'mul', 'matmul', 'q_prod', 'matmul_QH', 'product_QS', 'mul_QS', 'matmul_QS',
+                               'S_product', 'product_SS', 'mul_SS', 'matmul_SS')}
     ref = cm.qmul(p, q)
     for k, f in prods.items():
         v = np.asarray(f(p.copy(), q.copy()), float)
@@ -195,7 +200,14 @@ def o_inverse(inp):
     l, r = cm.qmul(base, inv), cm.qmul(inv, base)
     err = max(cm.maxabs(l, one), cm.maxabs(r, one))
     if cm.bad(inv) or err > 1e-9:
-        region = 'versor' if (inp.get('versor') or abs(nq - 1) <= 1e-8 + 1e-5) else 'non-versor'
+        # three code paths of Quaternion.inverse: exact versors, quaternions that merely pass is_versor()'s np.isclose
+        # tolerance (the bare conjugate is returned: q q^-1 = |q|^2), and everything else (conjugate / |q|: q q^-1 = |q|)
+        if inp.get('versor') or abs(nq - 1) <= 1e-12:
+            region = 'versor'
+        elif abs(nq - 1) <= 1e-8 + 1e-5:
+            region = 'near-versor'
+        else:
+            region = 'non-versor'
         return {'tag': f'inverse/{region}', 'observed': l, 'expected': one}
     return None
 
@@ -318,6 +330,13 @@ def search(ctx, scale):
     qs = _quats(ctx, n + 2)
     for i in range(n):
         p, q, r = qs[i], qs[(i * 7 + 1) % len(qs)], qs[(i * 11 + 2) % len(qs)]
+        # keep the squares of every intermediate product representable (|pq|^2, |qr|^2, |pqr|^2 in the binary64 range):
+        # beyond that the laws fail by underflow/overflow only, which is outside what the property states
+        nrm = [np.linalg.norm(x) for x in (p, q, r)]
+        if not all(1e-150 < v < 1e150 for v in (nrm[0] * nrm[1], nrm[1] * nrm[2], nrm[0] * nrm[1] * nrm[2])):
+            q = q / nrm[1]
+            if not 1e-150 < nrm[0] * nrm[2] < 1e150:
+                r = r / nrm[2]
         entry = ('product', 'mul', 'matmul', 'q_prod')[i % 4]
         inp = {'p': p.tolist(), 'q': q.tolist(), 'r': r.tolist(), 'entry': entry}
         ctx.check('algebra', inp, cm_call(o_algebra, inp), nontrivial_key=(entry, tuple(np.round(p, 6)), tuple(np.round(q, 6))))
